@@ -19,6 +19,7 @@ EQUIV_DEPS = {
     'Equiv_gosper': ['Gen_gosper_c'],
     'Equiv_guards': ['Gen_util_guards'],
     'Equiv_zmat': ['Gen_zmatrix_py'],
+    'Equiv_loops': ['Gen_propagator_loops'],
     'Equiv_addr': ['Gen_zmatrix_py', 'Gen_address_py'],
     'Equiv_ctors': ['Gen_control_ctors'],
     'Equiv_sorts': ['Gen_util_sorts'],
